@@ -216,8 +216,13 @@ func runHistory(p *SPlan, noUp bool, o *sim.Outcome, sigParts *[]string) []obsLi
 		o.Fail("C10.no_crash", "construct:"+panicSite(cres.stack), 0, "[%s] constructing the shim panicked (%v) [faults fired: %v]", mode, cres.panicked, s.firedLog)
 		return nil
 	}
+	if err == nil && s.fired > 0 && !(len(s.firedLog) == 1 && strings.HasSuffix(s.firedLog[0], "/"+refagent.FaultCloseAfter)) {
+		o.Fail("C10.construct", "construct_error_swallowed", 0, "[%s] the underlying agent failed while the shim was being constructed (%v) but construction reported success", mode, s.firedLog)
+		return nil
+	}
 	if err != nil {
 		if s.fired > 0 {
+			o.Probe("construct_failure_reported")
 			o.Logf("[%s] construction failed under a fault: error returned", mode)
 			*sigParts = append(*sigParts, mode+":construct_err")
 			return nil
@@ -476,6 +481,15 @@ func runHistory(p *SPlan, noUp bool, o *sim.Outcome, sigParts *[]string) []obsLi
 		if st.Op == "sign" && !wasLocked {
 			switch {
 			case want == shimmodel.OK && res.err != nil:
+				if m.NoUp {
+					what := "plain key"
+					if c.isCert(st.Role) && pre.MemHas(st.Role) {
+						what = "in-memory hardware certificate"
+					} else if c.isCert(st.Role) {
+						what = "certificate with another KeyID"
+					}
+					o.Fail("C09.usable", "noup_sign_refused:"+what, i, "%s: no-upstream mode refuses to sign with a %s (%v); only upstream YSSHCA certificates are hidden", tag, what, res.err)
+				}
 				o.Fail("C10.sign", "sign_refused", i, "%s: signing failed (%v) although the identity is held and valid", tag, res.err)
 			case want == shimmodel.Err && res.err == nil:
 				switch reason {
